@@ -619,6 +619,9 @@ func checkC16(p *Prog, r *Report) {
 		r.Check(err == nil && eq, kp("CONST", "oracle-agreement:"+f), "the limits in the property statement and in the repository's documents denote the same language", "docs",
 			st[f].String()+" ≡ "+d.String(), fmt.Sprintf("statement %v vs document %v differ (witness %q, err %v)", st[f], d, w, err))
 	}
+	// the validated value is the stored value (AOL free-text fields): limits on the message mean nothing if the handler stores
+	// a transformed value
+	aolRules(p, r, "C16", func(tag string) bool { return tag == "content" })
 	msgs := p.Msgs()
 	r.Floor("messages", len(msgs), 14)
 	nFields := 0
@@ -951,8 +954,9 @@ func checkDidDocumentValid(p *Prog, r *Report, kp func(string, string) string) {
 						continue
 					}
 					t := l.Term
-					if t.Op == "call" && strings.HasSuffix(t.Name, "ValidateVerificationMethodID") && t.Args[0].Op == "field" && t.Args[0].Name == "Id" {
-						okID = true
+					if t.Op == "call" && strings.HasSuffix(t.Name, "ValidateVerificationMethodID") && len(t.Args) == 2 && t.Args[0].Op == "field" && t.Args[0].Name == "Id" {
+						// … against the DID handed in by the document (the parameter itself), not a DID computed from the method
+						okID = t.Args[1].Op == "param"
 					}
 					if t.Op == "call" && strings.HasSuffix(t.Name, "ValidateKeyType") && t.Args[0].Op == "field" && t.Args[0].Name == "Type" {
 						okType = true
